@@ -96,9 +96,10 @@ pub fn queries_in_asset_order<const L: usize>(m: &Market<2, L>) -> bool {
 }
 
 /// one market-level operation addressed to asset `a` (concrete per harness), trading flag per cfg
-pub fn step_market_op<const N: usize, const L: usize, const WHICH: u8>(m: usize, a: usize, cfg: GenCfg) {
-    let p0: Plain<N> = gen_plain::<N>(m, cfg);
-    let mut p1: Plain<N> = gen_plain::<N>(m, cfg);
+pub fn step_market_op<const N: usize, const L: usize, const WHICH: u8>(m: usize, a: usize, cfg: GenCfg, mo: usize) {
+    // `m` entries in the addressed asset's table, `mo` in the other asset's
+    let p0: Plain<N> = gen_plain::<N>(if a == 0 { m } else { mo }, cfg);
+    let mut p1: Plain<N> = gen_plain::<N>(if a == 0 { mo } else { m }, cfg);
     // one clock and one trading flag are shared by construction (Market::new / set_time / toggles)
     p1.t = p0.t;
     p1.trading = p0.trading;
@@ -250,6 +251,51 @@ pub fn step_market_admin<const N: usize, const L: usize>(m: usize, cfg: GenCfg) 
     vcheck!(ba[0] == (0, Price::MAX) && ba[1] == (0, Price::MAX) && fresh.verif_book(0).verif_n_orders() == 0 && fresh.verif_book(1).verif_n_orders() == 0, "MARKET.new_books_empty");
 }
 
+/// The Modify routing on a small concrete SHAPE with symbolic values (a formula that stays small
+/// whatever the routing code does): two asks resting at one price on asset 1 of a market built through
+/// the public API, then `process_event(Modify { first order, its own price restated, volume kept or
+/// reduced })`.  A stand-alone book re-queues on ANY given price: the first order must now sit behind
+/// the second, with the requested volume; asset 0 stays empty.
+pub fn market_modify_routing_small(via_event: bool) {
+    let t = any_u64();
+    assume(t < (1u64 << 62));
+    let mut market: Market<2, 2> = Market::new(t, [1, 1], false);
+    let p = any_u32();
+    assume(p > 0 && p < Price::MAX);
+    let (v0, v1) = (any_u32(), any_u32());
+    assume(v0 >= 1 && v1 >= 1 && (v0 as u64) + (v1 as u64) <= u32::MAX as u64);
+    let tr = any_u32();
+    let a = market.create_and_place_order(1, mk_side(false), v0, tr, Some(p));
+    let b = market.create_and_place_order(1, mk_side(false), v1, tr, Some(p));
+    vcheck!(matches!(a, Ok((1, 0))) && matches!(b, Ok((1, 1))), "MARKET.create_returns_asset_and_per_asset_sequence_number");
+    let before = (market.verif_book(1).verif_key_time(0), market.verif_book(1).verif_key_time(1));
+    vcheck!(before.0 < before.1, "REF.queue_order_equals_reference");
+    // (through an event the volume is left out: rustc encodes `Event`'s own discriminant in the spare
+    // values of one of its `Option` fields' tags, and a symbolic `Option` there makes "which kind of
+    // event is this?" undecidable for the symbolic executor, which then explores every arm)
+    let nv = if !via_event && any_bool() {
+        let x = any_u32();
+        assume(x >= 1 && x <= v0);
+        Some(x)
+    } else {
+        None
+    };
+    if via_event {
+        market.process_event(Event::Modify { order_id: (1, 0), new_price: Some(p), new_vol: nv });
+    } else {
+        market.modify_order((1, 0), Some(p), nv);
+    }
+    let book = market.verif_book(1);
+    vcheck!(book.verif_key_time(0) > book.verif_key_time(1), "MARKET.restated_price_requeues_as_in_a_stand_alone_book");
+    let o = market.order((1, 0));
+    vcheck!(o.status == Status::Active && o.price == p && o.vol == nv.unwrap_or(v0), "MARKET.addressed_book_equals_stand_alone_book");
+    vcheck!(market.verif_book(0).verif_n_orders() == 0 && market.verif_book(1).verif_n_orders() == 2, "MARKET.other_asset_untouched");
+    let av = market.ask_vols();
+    vcheck!(av[0] == 0 && av[1] == v1 + nv.unwrap_or(v0), "MARKET.all_asset_queries_in_asset_order");
+    vcover!(nv.is_none(), "cover.price_only_restated");
+    core::mem::forget(market);
+}
+
 /// save -> load of a whole market through the derived implementations (incl. the `serde_as` array
 /// adapter) over the token tape: every asset's book comes back in its own slot, equal to the saved one
 pub fn market_serde_roundtrip<const N: usize, const L: usize>(m: usize) {
@@ -289,37 +335,39 @@ vharnesses! {
     #[cfg_attr(kani, kani::unwind(18))]
     fn c07_serde_market_roundtrip_m1() { market_serde_roundtrip::<2, 2>(1) }
     #[cfg_attr(kani, kani::unwind(4))]
-    fn c14_market_create_asset0_off() { step_market_op::<3, 2, 0>(2, 0, GenCfg { ntrades: 1, ..OFF }) }
+    fn c14_market_create_asset0_off() { step_market_op::<3, 2, 0>(2, 0, GenCfg { ntrades: 1, ..OFF }, 2) }
     #[cfg_attr(kani, kani::unwind(4))]
-    fn c14_market_create_asset1_off() { step_market_op::<3, 2, 0>(2, 1, GenCfg { ntrades: 1, ..OFF }) }
+    fn c14_market_create_asset1_off() { step_market_op::<3, 2, 0>(2, 1, GenCfg { ntrades: 1, ..OFF }, 2) }
     #[cfg_attr(kani, kani::unwind(4))]
-    fn c14_market_create_place_asset0_off() { step_market_op::<3, 2, 1>(2, 0, GenCfg { ntrades: 1, ..OFF }) }
+    fn c14_market_create_place_asset0_off() { step_market_op::<3, 2, 1>(2, 0, GenCfg { ntrades: 1, ..OFF }, 2) }
     #[cfg_attr(kani, kani::unwind(4))]
-    fn c14_market_create_place_asset1_off() { step_market_op::<3, 2, 1>(2, 1, GenCfg { ntrades: 1, ..OFF }) }
+    fn c14_market_create_place_asset1_off() { step_market_op::<3, 2, 1>(2, 1, GenCfg { ntrades: 1, ..OFF }, 2) }
     #[cfg_attr(kani, kani::unwind(4))]
-    fn c14_market_place_asset0_off() { step_market_op::<3, 2, 2>(2, 0, GenCfg { ntrades: 1, ..OFF }) }
+    fn c14_market_place_asset0_off() { step_market_op::<3, 2, 2>(2, 0, GenCfg { ntrades: 1, ..OFF }, 2) }
     #[cfg_attr(kani, kani::unwind(4))]
-    fn c14_market_place_asset1_off() { step_market_op::<3, 2, 2>(2, 1, GenCfg { ntrades: 1, ..OFF }) }
+    fn c14_market_place_asset1_off() { step_market_op::<3, 2, 2>(2, 1, GenCfg { ntrades: 1, ..OFF }, 2) }
     #[cfg_attr(kani, kani::unwind(4))]
-    fn c14_market_cancel_asset0_off() { step_market_op::<3, 2, 3>(2, 0, GenCfg { ntrades: 1, ..OFF }) }
+    fn c14_market_cancel_asset0_off() { step_market_op::<3, 2, 3>(2, 0, GenCfg { ntrades: 1, ..OFF }, 2) }
     #[cfg_attr(kani, kani::unwind(4))]
-    fn c14_market_cancel_asset1_off() { step_market_op::<3, 2, 3>(2, 1, GenCfg { ntrades: 1, ..OFF }) }
+    fn c14_market_cancel_asset1_off() { step_market_op::<3, 2, 3>(2, 1, GenCfg { ntrades: 1, ..OFF }, 2) }
     #[cfg_attr(kani, kani::unwind(4))]
-    fn c14_market_modify_asset0_off() { step_market_op::<3, 2, 4>(2, 0, GenCfg { ntrades: 1, ..OFF }) }
+    fn c14_market_modify_asset0_off() { step_market_op::<3, 2, 4>(2, 0, GenCfg { ntrades: 1, ..OFF }, 2) }
     #[cfg_attr(kani, kani::unwind(4))]
-    fn c14_market_modify_asset1_off() { step_market_op::<3, 2, 4>(2, 1, GenCfg { ntrades: 1, ..OFF }) }
+    fn c14_market_modify_asset1_off() { step_market_op::<3, 2, 4>(2, 1, GenCfg { ntrades: 1, ..OFF }, 2) }
     #[cfg_attr(kani, kani::unwind(4))]
-    fn c14_market_event_new_asset0_off() { step_market_op::<3, 2, 5>(2, 0, GenCfg { ntrades: 1, ..OFF }) }
+    fn c14_market_event_new_asset0_off() { step_market_op::<3, 2, 5>(2, 0, GenCfg { ntrades: 1, ..OFF }, 2) }
     #[cfg_attr(kani, kani::unwind(4))]
-    fn c14_market_event_new_asset1_off() { step_market_op::<3, 2, 5>(2, 1, GenCfg { ntrades: 1, ..OFF }) }
+    fn c14_market_event_new_asset1_off() { step_market_op::<3, 2, 5>(2, 1, GenCfg { ntrades: 1, ..OFF }, 2) }
     #[cfg_attr(kani, kani::unwind(4))]
-    fn c14_market_event_cancel_asset0_off() { step_market_op::<3, 2, 6>(2, 0, GenCfg { ntrades: 1, ..OFF }) }
+    fn c14_market_event_cancel_asset0_off() { step_market_op::<3, 2, 6>(2, 0, GenCfg { ntrades: 1, ..OFF }, 2) }
     #[cfg_attr(kani, kani::unwind(4))]
-    fn c14_market_event_cancel_asset1_off() { step_market_op::<3, 2, 6>(2, 1, GenCfg { ntrades: 1, ..OFF }) }
+    fn c14_market_event_cancel_asset1_off() { step_market_op::<3, 2, 6>(2, 1, GenCfg { ntrades: 1, ..OFF }, 2) }
     #[cfg_attr(kani, kani::unwind(4))]
-    fn c14_market_event_modify_asset0_off() { step_market_op::<3, 2, 7>(2, 0, GenCfg { ntrades: 1, ..OFF }) }
+    fn c14_market_event_modify_asset0_off() { step_market_op::<3, 2, 7>(2, 0, GenCfg { ntrades: 1, ..OFF }, 2) }
     #[cfg_attr(kani, kani::unwind(4))]
-    fn c14_market_event_modify_asset1_off() { step_market_op::<3, 2, 7>(2, 1, GenCfg { ntrades: 1, ..OFF }) }
+    fn c14_market_event_modify_asset1_off() { step_market_op::<3, 2, 7>(2, 1, GenCfg { ntrades: 1, ..OFF }, 2) }
+    #[cfg_attr(kani, kani::unwind(4))]
+    fn c14_market_modify_routing_small() { market_modify_routing_small(false) }
     #[cfg_attr(kani, kani::unwind(4))]
     fn c14_market_admin() { step_market_admin::<3, 2>(2, GenCfg { ntrades: 1, ..CFG }) }
 }
